@@ -165,6 +165,12 @@ func (t Table) addRoute(d *RouteDef) error {
 		return fmt.Errorf("route: invalid target. %s", err)
 	}
 
+	// the host is matched as a glob pattern at request time where an
+	// invalid pattern panics (glob.MustCompile in matchingHosts)
+	if _, err := glob.Compile(host); err != nil {
+		return fmt.Errorf("route: invalid host pattern. %s", err)
+	}
+
 	switch {
 	// add new host
 	case t[host] == nil:
